@@ -325,3 +325,51 @@ func VerifC02_UnmarshalTotal() {
 	}
 	vrt.Reach("end")
 }
+
+// VerifC02_CleanupTempFiles: a crash can leave any subset of temporary files in the shard directory
+// (a compaction/snapshot output *.tsm.tmp, a tombstone being rewritten *.tombstone.tmp, the field index
+// snapshot fields.idx.tmp, a snapshot directory *.tmp), each cut at any length. Engine.cleanup (run by
+// Engine.Open before anything else) removes every one of them, so that the O_EXCL creation of those
+// files succeeds again, and touches nothing else.
+func VerifC02_CleanupTempFiles() {
+	dir := filepath.Join(vrt.FSRoot(), "shard")
+	vrt.Assert(os.MkdirAll(dir, 0o777) == nil, "mkdir")
+	keep := map[string][]byte{
+		"000000001-000000001.tsm":       vrt.Bytes("tsm", 2),
+		"000000001-000000001.tombstone": vrt.Bytes("tomb", 2),
+		"fields.idx":                    vrt.Bytes("fields", 2),
+		"fields.idxl":                   vrt.Bytes("log", 2),
+	}
+	for n, b := range keep {
+		vrt.Assert(os.WriteFile(filepath.Join(dir, n), b, 0o666) == nil, "write")
+	}
+	leftovers := []string{"000000002-000000001.tsm.tmp", "000000001-000000001.tombstone.tmp", "fields.idx.tmp"}
+	for i, n := range leftovers {
+		if vrt.Choose(vrt.N("leftover", i), 0, 1) == 1 {
+			torn := vrt.Bytes(vrt.N("torn", i), vrt.Choose(vrt.N("torn_len", i), 0, 2))
+			vrt.Assert(os.WriteFile(filepath.Join(dir, n), torn, 0o666) == nil, "write")
+		}
+	}
+	if vrt.Choose("snapshot_dir", 0, 1) == 1 {
+		vrt.Assert(os.MkdirAll(filepath.Join(dir, "123.tmp"), 0o777) == nil, "mkdir")
+		vrt.Assert(os.WriteFile(filepath.Join(dir, "123.tmp", "000000001-000000001.tsm"), []byte{1}, 0o666) == nil, "write")
+	}
+	e := &Engine{path: dir}
+	vrt.Assert(e.cleanup() == nil, "cleanup succeeds")
+	for _, n := range leftovers {
+		_, err := os.Stat(filepath.Join(dir, n))
+		vrt.Assert(os.IsNotExist(err), "every temporary file a crash can leave behind is removed at open")
+	}
+	_, err := os.Stat(filepath.Join(dir, "123.tmp"))
+	vrt.Assert(os.IsNotExist(err), "a left-over snapshot directory is removed at open")
+	for n, b := range keep {
+		got, err := os.ReadFile(filepath.Join(dir, n))
+		vrt.Assert(err == nil && len(got) == len(b), "files that are not temporary survive the clean-up")
+		if len(got) == len(b) {
+			for i := range b {
+				vrt.Assert(got[i] == b[i], "files that are not temporary keep their content")
+			}
+		}
+	}
+	vrt.Reach("end")
+}
